@@ -10,6 +10,7 @@ import (
 	"net/http/httptest"
 	"os"
 	"strings"
+	"sync"
 	"testing"
 	"time"
 
@@ -592,5 +593,96 @@ func TestVerifC19Timeouts(t *testing.T) {
 		case <-time.After(5 * time.Second):
 			return vs.Violf("C19/timeout-not-enforced", "the hook stalled (%s); the webhook timeout is 200ms but the call is still pending after 5s", stall)
 		}
+	})
+}
+
+// ---- part 4: ETag support follows the webhook's configuration (real constructor, loopback server) ----
+
+func TestVerifC19EtagConfig(t *testing.T) {
+	vs.RunExhaustive(t, "C19", 10_000, func(c *vs.Case) error {
+		cfg := c.PickStr("no-etag-block", "empty-block", "enabled-true", "enabled-false", "timeouts-only", "enabled-true-with-timeouts")
+		second := c.PickStr("304", "412", "200")
+		c.Describe(func() any { return map[string]any{"etagConfig": cfg, "secondAnswer": second} })
+		var inm []string
+		var mu sync.Mutex
+		n := 0
+		srv := httptest.NewServer(http.HandlerFunc(func(w http.ResponseWriter, r *http.Request) {
+			mu.Lock()
+			n++
+			k := n
+			inm = append(inm, r.Header.Get(headerIfNoneMatch))
+			mu.Unlock()
+			if k == 1 {
+				w.Header().Set(headerETag, `"e1"`)
+				_, _ = w.Write([]byte(`{"status":{"v":3},"children":[]}`))
+				return
+			}
+			switch second {
+			case "304":
+				w.WriteHeader(304)
+			case "412":
+				w.WriteHeader(412)
+			default:
+				_, _ = w.Write([]byte(`{"status":{"v":7},"children":[]}`))
+			}
+		}))
+		defer srv.Close()
+		c19TimeoutSeq++
+		url := srv.URL + "/sync"
+		wh := &v1alpha1.Webhook{URL: &url}
+		on, off := true, false
+		ttl := int32(60)
+		active := false
+		switch cfg {
+		case "empty-block":
+			wh.Etag = &v1alpha1.WebhookEtagConfig{}
+		case "enabled-true":
+			wh.Etag = &v1alpha1.WebhookEtagConfig{Enabled: &on, CacheTimeoutSeconds: &ttl, CacheCleanupSeconds: &ttl}
+			active = true
+		case "enabled-false":
+			wh.Etag = &v1alpha1.WebhookEtagConfig{Enabled: &off, CacheTimeoutSeconds: &ttl, CacheCleanupSeconds: &ttl}
+		case "timeouts-only":
+			wh.Etag = &v1alpha1.WebhookEtagConfig{CacheTimeoutSeconds: &ttl, CacheCleanupSeconds: &ttl}
+		case "enabled-true-with-timeouts":
+			wh.Etag = &v1alpha1.WebhookEtagConfig{Enabled: &on, CacheTimeoutSeconds: &ttl, CacheCleanupSeconds: &ttl}
+			active = true
+		}
+		ex, err := NewWebhookExecutor(wh, fmt.Sprintf("c19-etagcfg-%d-%d", os.Getpid(), c19TimeoutSeq), common.CompositeController, common.SyncHook)
+		if err != nil {
+			return fmt.Errorf("harness: %v", err)
+		}
+		var r1, r2 c19Resp
+		if err := ex.Call(c19Parent(), &r1); err != nil {
+			return vs.Violf("C19/valid-answer-rejected", "first call (200 with an ETag) failed: %v", err)
+		}
+		err2 := ex.Call(c19Parent(), &r2)
+		mu.Lock()
+		sent := append([]string(nil), inm...)
+		mu.Unlock()
+		c.NonTrivial()
+		if len(sent) < 2 {
+			return fmt.Errorf("harness: the server saw %d requests", len(sent))
+		}
+		if active && sent[1] != `"e1"` {
+			return vs.Violf("C19/if-none-match-not-sent", "etag.enabled is true and an entry is cached, but the second request carried If-None-Match=%q", sent[1])
+		}
+		if !active && sent[1] != "" {
+			return vs.Violf("C19/if-none-match-unexpected", "ETag support is off (%s) but the second request carried If-None-Match=%q", cfg, sent[1])
+		}
+		switch {
+		case second == "200":
+			if err2 != nil || fmt.Sprint(r2.Status["v"]) != "7" {
+				return vs.Violf("C19/valid-answer-rejected", "second call answered 200 with v=7: err=%v status=%v", err2, r2.Status)
+			}
+		case active:
+			if err2 != nil || fmt.Sprint(r2.Status["v"]) != "3" {
+				return vs.Violf("C19/wrong-body-decoded", "ETag support on, %s after If-None-Match: want the cached body (v=3), got err=%v status=%v", second, err2, r2.Status)
+			}
+		default:
+			if err2 == nil {
+				return vs.Violf("C19/bad-status-accepted", "ETag support is off (%s) but HTTP %s was treated as an answer (status %v)", cfg, second, r2.Status)
+			}
+		}
+		return nil
 	})
 }
